@@ -600,7 +600,7 @@ def traces(rng, tier, B):
     # the same programs with abnormal exits (formatting into failing / panicking sinks, panicking comparators) before
     # the program and between its steps: the same Coq term when healthy
     abn = []
-    for c, route in zip(_spread(out, 60 if q else 900), ABN_TRACE_ROUTES * 1000):
+    for c, route in zip(_spread(out, 60 if q else 480), ABN_TRACE_ROUTES * 1000):
         abn.append(dict(c, route=route, family=c["family"] + "-abnormal-exits"))
     return out + abn
 
@@ -631,16 +631,16 @@ def routed(rng, pairs, B, tier):
     some(200 if q else 2000, "i")
     some(200 if q else 2000, "aclsti")
     # histories that end abnormally before the script (executor: src/preamble.rs) and hidden-state inheritance
-    some(40 if q else 800, "f")
-    some(70 if q else 1500, "b")
-    some(40 if q else 800, "p")
+    some(40 if q else 300, "f")
+    some(70 if q else 600, "b")
+    some(40 if q else 300, "p")
     some(70 if q else 1500, "u")
-    some(40 if q else 800, "fbpu")
-    some(20 if q else 400, "bh")
-    some(20 if q else 400, "pt")
+    some(40 if q else 300, "fbpu")
+    some(20 if q else 150, "bh")
+    some(20 if q else 150, "pt")
     some(20 if q else 400, "uh")
-    some(20 if q else 400, "bai")
-    some(20 if q else 400, "aclstifbpuh")
+    some(20 if q else 150, "bai")
+    some(20 if q else 150, "aclstifbpuh")
     for a in B:                                          # the constants as operands
         for k in (0, ONE_BITS):
             out.append({"op": "all", "a": hx(a), "b": hx(k), "route": "c"})
